@@ -14,8 +14,9 @@ TECHNIQUE = ("Coq proof over the reconcile + environment model: a converged snap
              "histories of the real controller (random interleavings of reconcile, kubelet, cache lag, faults, edits that stop; then a fair suffix) compared with "
              "the environment model per op inside coqc; regularity + round equality and quietb evaluated inside coqc on observed worlds; convergence monitor")
 ASSUMPTIONS = [
-    "PARTIAL: preservation of regularity by a round of the full model (hypothesis of C02_full_model_converges for every round) is evaluated inside coqc "
-    "(family C02/round: round_check on worlds at the round boundaries of histories and on synthetic settled worlds), not proved; "
+    "PARTIAL: C02_full_model_converges_closed assumes a regular initial world whose revision list is within revisionHistoryLimit; for longer lists the quiet "
+    "revision phase is a per-round hypothesis (C02_full_model_converges_rev_quiet), evaluated inside coqc (family C02/round: round_check / regularb on worlds "
+    "at the round boundaries of histories and on synthetic settled worlds), not proved; "
     "that a fair history ends in a world satisfying quietb (hypothesis of C02_quiet_world_no_write) is evaluated inside coqc on every final world (family C02/quiet) "
     "and decided on the implementation by the monitor (last two reconciles write nothing), not proved",
     "API-server, kubelet and informer-cache semantics are modelled (Env.v, World.v), validated per op against the fake clientsets + harness reactors",
@@ -23,7 +24,7 @@ ASSUMPTIONS = [
     "not paused / deleting, no terminal-phase pod outside the desired set",
 ]
 IMPORTS = rc.IMPORTS + ["Env"]
-ROUND_IMPORTS = IMPORTS + ["TerminationProofs", "RoundCheck"]
+ROUND_IMPORTS = IMPORTS + ["TerminationProofs", "RoundCheck", "RegularCheck"]
 QUIET_IMPORTS = IMPORTS + ["QuietProofs"]
 NAMES = 18
 ROUND_OPS = 2 + NAMES + NAMES      # refresh, reconcile, gone x names, settle x names
@@ -237,77 +238,86 @@ def run(ctx, depth):
     rng = ctx.rng
     quick = depth == "quick"
     n = 36 if quick else 1200
-    scs = []
-    for _ in range(n):
-        api, cache = start_world(rng)
-        ops, names = gen_ops(rng, api, rng.randint(10, 40) if quick else rng.randint(20, 120))
-        rounds = 30 if (api["set"]["replicas"] or 0) <= 5 else 80     # at least mu(pods) of TerminationProofs.v: <= 3 per desired ordinal + extras
-        sc = dict(api=api, cache=cache, ops=ops + fair_suffix(names, rounds), dump=True, tmpls=[1, 2, 3])
-        part = (api["set"]["rolling"] or {}).get("partition") or 0
-        for op in ops:
-            if op["op"] == "edit" and op["field"] == "partition":
-                part = op["int"]
-        sc["_partition_final"] = max(part, 0)
-        sc["_prefix_len"] = len(ops)
-        scs.append(sc)
-    # "ready_if_live": the kubelet makes every pod that is not terminating and not in a terminal phase Running+Ready
-    # it is expanded here against nothing (the harness treats `ready` on a missing / terminal pod as we model it)
-    for sc in scs:
-        for op in sc["ops"]:
-            if op.get("ev") == "ready_if_live":
-                op["ev"] = "settle"
-    outs = core.run_harness_parallel("reconcile", [{k: v for k, v in sc.items() if not k.startswith("_")} for sc in scs], shards=16, timeout=1800)
+    chunk = 36 if quick else 60          # histories per harness batch: the per-op world dumps are large, keep memory bounded
+    scs, finals = [], []
     terms, idx = [], []
-    premise_out = set()
-    for i, (sc, out) in enumerate(zip(scs, outs)):
-        ctx.evaluations += 1
-        ctx.count("family:history")
-        ctx.count("ops:%d0s" % (len(sc["ops"]) // 10))
-        recs = [st for st in out["steps"] if isinstance(st, dict) and "calls" in st]
-        ctx.count("reconciles", len(recs))
-        if any(st["result"] == "err" for st in recs):
-            ctx.count("histories-with-failed-reconciles")
-        ctx.nontriv([sc["api"], sc["ops"][:30]])
-        bad = mon_history(sc, out)
-        if bad == ["PREMISE"]:
-            ctx.count("outside-fairness-premise (terminal-phase pod outside the desired set, ordered policy)")
-            premise_out.add(i)
-            bad = []
-        if bad:
-            premise_out.add(i)
-        if bad:
-            ctx.violations.append({"family": "C02/history", "input": {k: v for k, v in sc.items() if not k.startswith("_")},
-                                   "observed": {"final": out["final"], "last_reconciles": recs[-2:]}, "clauses": bad,
-                                   "signature": {"kind": "C02", "clause": bad[0][:40]}})
-        # per-op correspondence of the world (API side) — on the chaotic prefix and the first rounds of the suffix
-        steps = out["steps"]
-        pairs = []
-        k = 0
-        limit = 60 if quick else 160
-        for op in sc["ops"][:limit]:
-            dump = steps[2 * k + 1]
-            pairs.append("(%s, %s)" % (r_op(op), rc.r_world(dump_world(dump, sc["api"]["set"]))))
-            k += 1
-        start = "{| hw_api := %s; hw_cache := %s |}" % (rc.r_world(sc["api"]), rc.r_world(sc["cache"]))
-        terms.append("{| hc_hashes := %s; hc_start := %s; hc_ops := [%s] |}" % (rc.r_hashes(rc.hashes_of(out)), start, "; ".join(pairs)))
-        idx.append(i)
-    # the abstract round of TerminationProofs.v against the round of the full model (Env.v), on the worlds the
-    # real controller was in at the round boundaries of the fair suffix (and at the end of the chaotic prefix)
     rterms, ridx = [], []
-    for i, (sc, out) in enumerate(zip(scs, outs)):
-        steps = out["steps"]
-        npre = sc["_prefix_len"]
-        base = copy.deepcopy(sc["api"]["set"])
-        base["rolling"] = {"partition": sc["_partition_final"]}
-        for j in range(0, 7 if quick else 12):
-            k = npre + ROUND_OPS * j - 1
-            if k < 0 or 2 * k + 1 >= len(steps):
-                continue
-            w = dump_world(steps[2 * k + 1], base)
-            if w["set"] is None:
-                continue
-            rterms.append("(%s, %s)" % (rc.r_hashes(rc.hashes_of(out)), rc.r_world(w)))
-            ridx.append((i, j))
+    qterms, qidx = [], []
+    premise_out = set()
+    sample0 = None
+    limit = 60 if quick else 160
+    while len(scs) < n:
+        batch = []
+        for _ in range(min(chunk, n - len(scs))):
+            api, cache = start_world(rng)
+            ops, names = gen_ops(rng, api, rng.randint(10, 40) if quick else rng.randint(20, 120))
+            rounds = 30 if (api["set"]["replicas"] or 0) <= 5 else 80     # at least mu(pods) of TerminationProofs.v: <= 3 per desired ordinal + extras
+            sc = dict(api=api, cache=cache, ops=ops + fair_suffix(names, rounds), dump=True, tmpls=[1, 2, 3])
+            part = (api["set"]["rolling"] or {}).get("partition") or 0
+            for op in ops:
+                if op["op"] == "edit" and op["field"] == "partition":
+                    part = op["int"]
+            sc["_partition_final"] = max(part, 0)
+            sc["_prefix_len"] = len(ops)
+            # "ready_if_live": the kubelet makes every pod that is not terminating and not in a terminal phase Running+Ready
+            for op in sc["ops"]:
+                if op.get("ev") == "ready_if_live":
+                    op["ev"] = "settle"
+            batch.append(sc)
+        outs = core.run_harness_parallel("reconcile", [{k: v for k, v in sc.items() if not k.startswith("_")} for sc in batch], shards=16, timeout=1800)
+        for sc, out in zip(batch, outs):
+            i = len(scs)
+            scs.append(sc)
+            finals.append(out["final"])
+            ctx.evaluations += 1
+            ctx.count("family:history")
+            ctx.count("ops:%d0s" % (len(sc["ops"]) // 10))
+            recs = [st for st in out["steps"] if isinstance(st, dict) and "calls" in st]
+            ctx.count("reconciles", len(recs))
+            if any(st["result"] == "err" for st in recs):
+                ctx.count("histories-with-failed-reconciles")
+            ctx.nontriv([sc["api"], sc["ops"][:30]])
+            bad = mon_history(sc, out)
+            if bad == ["PREMISE"]:
+                ctx.count("outside-fairness-premise (terminal-phase pod outside the desired set, ordered policy)")
+                premise_out.add(i)
+                bad = []
+            if bad:
+                premise_out.add(i)
+                ctx.violations.append({"family": "C02/history", "input": {k: v for k, v in sc.items() if not k.startswith("_")},
+                                       "observed": {"final": out["final"], "last_reconciles": recs[-2:]}, "clauses": bad,
+                                       "signature": {"kind": "C02", "clause": bad[0][:40]}})
+            if sample0 is None:
+                sample0 = {"family": "history", "ops": [o["op"] + ":" + (o.get("ev") or o.get("field") or o.get("what") or "") for o in sc["ops"][:25]],
+                           "final_pods": [(p["name"], p["phase"], p["ready"], p["rev"]) for p in out["final"]["pods"]]}
+            # per-op correspondence of the world (API side) — on the chaotic prefix and the first rounds of the suffix
+            steps = out["steps"]
+            pairs = []
+            for k, op in enumerate(sc["ops"][:limit]):
+                pairs.append("(%s, %s)" % (r_op(op), rc.r_world(dump_world(steps[2 * k + 1], sc["api"]["set"]))))
+            start = "{| hw_api := %s; hw_cache := %s |}" % (rc.r_world(sc["api"]), rc.r_world(sc["cache"]))
+            hs = rc.r_hashes(rc.hashes_of(out))
+            terms.append("{| hc_hashes := %s; hc_start := %s; hc_ops := [%s] |}" % (hs, start, "; ".join(pairs)))
+            idx.append(i)
+            # the abstract round of TerminationProofs.v against the round of the full model (Env.v), on the worlds the
+            # real controller was in at the round boundaries of the fair suffix (and at the end of the chaotic prefix)
+            npre = sc["_prefix_len"]
+            base = copy.deepcopy(sc["api"]["set"])
+            base["rolling"] = {"partition": sc["_partition_final"]}
+            for j in range(0, 7 if quick else 12):
+                k = npre + ROUND_OPS * j - 1
+                if k < 0 or 2 * k + 1 >= len(steps):
+                    continue
+                w = dump_world(steps[2 * k + 1], base)
+                if w["set"] is None:
+                    continue
+                rterms.append("(%s, %s)" % (hs, rc.r_world(w)))
+                ridx.append((i, j))
+            # the hypothesis of C02_quiet_world_no_write on the world the real controller ended in
+            if i not in premise_out and out["final"].get("set") is not None:
+                qterms.append("(%s, %s)" % (hs, rc.r_world(dump_world(out["final"], base))))
+                qidx.append(i)
+        del outs
     n_obs = len(rterms)
     # plus synthetic settled worlds (mixed: missing, failed, outdated, extra pods; never seen by the implementation): here the
     # abstract round is compared with the round of the full model only, which the history family ties to the implementation
@@ -340,22 +350,17 @@ def run(ctx, depth):
     ctx.families["C02/round"] = {"worlds": len(rterms), "observed_in_histories": n_obs, "synthetic_settled": len(rterms) - n_obs, "compared (inside the theorem's hypotheses)": len(rterms) - len(rskip),
                                  "skipped (not settled / not well-formed)": len(rskip) - len(rbad), "mismatches": len(rbad)}
     ctx.count("round-worlds-compared", len(rterms) - len(rskip))
-    # the hypothesis of C02_quiet_world_no_write on the worlds the real controller ended in: quietb must hold there
-    qterms, qidx = [], []
-    for i, (sc, out) in enumerate(zip(scs, outs)):
-        if i in premise_out or out["final"].get("set") is None:
-            continue
-        base = copy.deepcopy(sc["api"]["set"])
-        base["rolling"] = {"partition": sc["_partition_final"]}
-        qterms.append("(%s, %s)" % (rc.r_hashes(rc.hashes_of(out)), rc.r_world(dump_world(out["final"], base))))
-        qidx.append(i)
+    # how many of these worlds satisfy the hypotheses of C02_full_model_round (regular): non-vacuity on observed worlds
+    rirr = core.coq_mismatches("C02_regular", ROUND_IMPORTS, "round_case", "regular_case", rterms, shard_size=8, timeout=1500)
+    ctx.families["C02/round"]["regular (hypotheses of C02_full_model_round hold)"] = len(rterms) - len(rirr)
+    ctx.count("round-worlds-regular", len(rterms) - len(rirr))
     qbad = core.coq_mismatches("C02_quiet", QUIET_IMPORTS, "(list ((Z * Z) * string) * world)%type",
                                "(fun c => quietb (fst c) (snd c) (snd c))", qterms, shard_size=8, timeout=1500)
     for j in qbad[:4]:
         i = qidx[j]
         ctx.corr_breaks.append({"family": "C02/quiet", "input": {k: v for k, v in scs[i].items() if not k.startswith("_")},
                                 "model": "quietb is false on the final world of the history, where the implementation is quiet",
-                                "final": outs[i]["final"]})
+                                "final": finals[i]})
     ctx.families["C02/quiet"] = {"final_worlds": len(qterms), "quietb_false": len(qbad)}
     mm = core.coq_mismatches("C02_hist", IMPORTS, "hist_case", "hist_check", terms, shard_size=2, timeout=1500)
     for j in mm[:6]:
@@ -364,8 +369,8 @@ def run(ctx, depth):
         mvs = " ".join(mv)[:1500]
         ctx.corr_breaks.append({"family": "C02/history", "input": {k: v for k, v in scs[i].items() if not k.startswith("_")}, "model": mvs})
     ctx.traces_validated += len(terms)
-    ctx.sample({"family": "history", "ops": [o["op"] + ":" + (o.get("ev") or o.get("field") or o.get("what") or "") for o in scs[0]["ops"][:25]],
-                "final_pods": [(p["name"], p["phase"], p["ready"], p["rev"]) for p in outs[0]["final"]["pods"]]})
+    if sample0:
+        ctx.sample(sample0)
     ctx.families["C02/history"] = {"histories": n, "ops_total": sum(len(s["ops"]) for s in scs), "world_compared_per_op_in_coq": len(terms),
                                    "model_mismatches": len(mm)}
 
